@@ -190,6 +190,12 @@ class Walk(object):
             if op in ("+", "-", "*", "&", "|", "^"):
                 a, b = self.int(e0["c"][0]), self.int(e0["c"][1])
                 return {"+": a + b, "-": a - b, "*": a * b, "&": a & b, "|": a | b, "^": a ^ b}[op]
+            if op in ("/", "%"):
+                a, b = self.int(e0["c"][0]), self.int(e0["c"][1])
+                if b == 0:
+                    raise Undefined("`%s` divides by zero" % facts.expr_str(e0))
+                q = abs(a) // abs(b) * (1 if (a >= 0) == (b > 0) else -1)        # C++ truncates towards zero
+                return q if op == "/" else a - q * b
             if op in ("<<", ">>"):
                 a, b = self.int(e0["c"][0]), self.int(e0["c"][1])
                 w = (facts.ty(self.f, e0) or {}).get("w") or 32
@@ -197,6 +203,8 @@ class Walk(object):
                     raise Undefined("`%s` shifts a %d-bit value by %d" % (facts.expr_str(e0), w, b))
                 r = (a << b) if op == "<<" else (a >> b)
                 return r & ((1 << w) - 1) if a >= 0 else r
+        if k == "ConditionalOperator":
+            return self.int(e0["c"][1]) if self.int(e0["c"][0]) else self.int(e0["c"][2])
         if k == "UnaryOperator" and e0.get("op") == "!":
             return 0 if self.int(e0["c"][0]) else 1
         if k == "UnaryOperator" and e0.get("op") in ("++", "--") and strip(e0["c"][0]).get("var") in self.ints:
@@ -334,7 +342,31 @@ class Walk(object):
                     v = self.int(e["c"][1])
                 self.buf[i] = ("const", int(v) & 0xff)
                 return
+        if k == "CallExpr" and e.get("cname") in ("fill", "fill_n", "memset") and len(e["c"]) == 4:
+            # std::fill(first, last, v) / std::fill_n(first, n, v) / memset(first, v, n) over the container's bytes
+            a = e["c"][1:]
+            first = self.it(self.unwrap_iter(a[0]))
+            if first is not None:
+                if e["cname"] == "fill":
+                    last = self.it(self.unwrap_iter(a[1]))
+                    v = self.int(a[2])
+                elif e["cname"] == "fill_n":
+                    last = first + self.int(a[1])
+                    v = self.int(a[2])
+                else:
+                    v = self.int(a[1])
+                    last = first + self.int(a[2])
+                if last is not None:
+                    for i in range(first, last):
+                        self.buf[self.check(i, e)] = ("const", int(v) & 0xff)
+                    return
         raise Unsupported("statement `%s`" % facts.expr_str(e)[:80])
+
+    def unwrap_iter(self, e):
+        e0 = facts.strip_all(e)
+        while e0["k"] in ("CXXConstructExpr", "MaterializeTemporaryExpr", "CXXBindTemporaryExpr") and len(e0.get("c", [])) == 1:
+            e0 = facts.strip_all(e0["c"][0])
+        return e0
 
     def bump(self, i, up):
         b = self.buf[i]
